@@ -47,7 +47,10 @@ pub fn run_prop(ctx: &Ctx, sink: &mut Sink) {
         let flag = *rng.pick(&["P", "P", "P", "L", "H"]);
         // under -H/-L only links that resolve to files, to nothing or to an empty directory (a removal
         // through a followed link would have to be compared by inode, not by name)
-        let sc = build_scene(ctx, &mut rng, simple_names(), flag == "P" && i % 3 != 0);
+        // names around the special case for the starting point `.`: ending in a dot, starting with one
+        let mut names = simple_names();
+        names.extend([b"e.".to_vec(), b".h".to_vec(), b"v1..".to_vec(), b"...".to_vec()]);
+        let sc = build_scene(ctx, &mut rng, names, flag == "P" && i % 3 != 0);
         if flag != "P" {
             let _ = std::os::unix::fs::symlink("../plain", sc.dir.join("r0/zlf"));
             let _ = std::os::unix::fs::symlink("nowhere", sc.dir.join("r0/zld"));
